@@ -290,3 +290,48 @@ Fixpoint jsize (j : json) : nat :=
   | JObj kvs => S (fold_right (fun kv acc => jsize (snd kv) + acc) 0 kvs)
   | _ => 1
   end.
+
+(* ------------------------------------------------------------------------------------------------ *)
+(* 3. The command line's format: json.dumps(..., indent=2, sort_keys=True) (cli.py dump)               *)
+
+Fixpoint spaces_k (n : nat) (k : string) : string := match n with O => k | S m => String (ch 32) (spaces_k m k) end.
+(* '\n' + indent * level *)
+Definition newline_k (lvl : nat) (k : string) : string := String (ch 10) (spaces_k (2 * lvl) k).
+
+(* json.encoder._make_iterencode with an indent: empty containers stay "[]" / "{}", the item separator is "," *)
+Fixpoint print_ind (lvl : nat) (j : json) (k : string) : string :=
+  match j with
+  | JArr (x0 :: r0) =>
+      String (ch 91)
+        ((fix elems (first : bool) (l : list json) : string :=
+            match l with
+            | [] => newline_k lvl (String (ch 93) k)
+            | x :: r => (if first then newline_k (S lvl) else fun s => String (ch 44) (newline_k (S lvl) s))
+                          (print_ind (S lvl) x (elems false r))
+            end) true (x0 :: r0))
+  | JObj (kv0 :: r0) =>
+      String (ch 123)
+        ((fix membs (first : bool) (l : list (string * json)) : string :=
+            match l with
+            | [] => newline_k lvl (String (ch 125) k)
+            | (key, v) :: r => (if first then newline_k (S lvl) else fun s => String (ch 44) (newline_k (S lvl) s))
+                                 (quote_k key (append ": " (print_ind (S lvl) v (membs false r))))
+            end) true (kv0 :: r0))
+  | _ => print_k j k
+  end.
+
+(* sort_keys=True: the items of every dict sorted by key (code point order), stable *)
+Fixpoint insert_kv (kv : string * json) (l : list (string * json)) : list (string * json) :=
+  match l with
+  | [] => [kv]
+  | kv' :: r => if String.ltb (fst kv') (fst kv) then kv' :: insert_kv kv r else kv :: l
+  end.
+Fixpoint sort_keys (j : json) : json :=
+  match j with
+  | JArr l => JArr (map sort_keys l)
+  | JObj kvs => JObj (fold_right insert_kv [] (map (fun kv => (fst kv, sort_keys (snd kv))) kvs))
+  | _ => j
+  end.
+
+(* what `griffe dump` prints for the documents of the requested packages (print() appends the newline) *)
+Definition dumps_cli (j : json) : string := print_ind 0 (sort_keys j) (String (ch 10) EmptyString).
